@@ -61,8 +61,8 @@ def async_part(chk):
   class Src:
     """Endless (or finite / failing) async source that counts its reads."""
 
-    def __init__(self, n=None, fail_at=0, idle=False):
-      self.n, self.fail_at, self.reads, self.idle = n, fail_at, 0, idle
+    def __init__(self, n=None, fail_at=0, idle=False, fail_delay=0.0):
+      self.n, self.fail_at, self.reads, self.idle, self.fail_delay = n, fail_at, 0, idle, fail_delay
 
     def __aiter__(self):
       return self
@@ -73,6 +73,8 @@ def async_part(chk):
       if self.idle:
         await asyncio.Event().wait()        # a producer that is alive but has nothing to deliver
       if self.fail_at and self.reads == self.fail_at:
+        if self.fail_delay:
+          await asyncio.sleep(self.fail_delay)     # the consumer has taken what there was and is starved by now
         raise RuntimeError('async producer fails')
       if self.n is not None and self.reads > self.n:
         raise StopAsyncIteration
@@ -80,7 +82,7 @@ def async_part(chk):
 
   async def scenario(kind, cap, turns_before):
     q = iter_utils.AsyncIteratorQueue(cap)
-    srcs = ([Src(idle=True), Src(fail_at=2)] if kind == 'other-fails-while-idle' else [Src(), Src(fail_at=2)] if kind == 'other-fails' else [Src()])
+    srcs = ([Src(idle=True), Src(fail_at=2, fail_delay=turns_before * 0.01)] if kind == 'other-fails-while-idle' else [Src(), Src(fail_at=2)] if kind == 'other-fails' else [Src()])
     tasks = [asyncio.ensure_future(q.async_enqueue_from_iterator(s)) for s in srcs]
     got, seen_exc = [], None
 
